@@ -235,6 +235,10 @@ def make_sheet(rnd, premium=False, default_bg=(255, 255, 255), rich=False, n_rul
             items.append((0, sel2, parts2))
             feats[sel2] = {"src:literal", "same-pair-other-notation", "cls:" + cls} | ({"own-bg"} if own_bg else set())
             i += 1
+        if src == "literal" and rnd.random() < 0.07 and allowed("dup-selector"):
+            # the very same rule (same selector, same declarations) a second time, at top level or inside an at-rule
+            items.append((rnd.choice([0, 1, 2]), sel, list(parts)))
+            feats[sel].add("dup-selector")
         if src == "var-shared" and i < n:
             # the sharing rule
             sel2 = _selector(rnd, i, tag)
